@@ -160,6 +160,23 @@ def run_reuse(chk, spec):
 	text = common.csv_text(spec)
 	kw = dict(delimiter=spec["delimiter"], has_header=spec["has_header"])
 	chk.judged("csv-reuse", ("reuse", spec["via"], spec["between"], spec["delimiter"]))
+	if spec["via"] == "fileobj" and spec["between"] in ("preamble", "rejected-call-first"):
+		# a file object is read from where the caller left it; a call that was rejected for its arguments has not consumed it
+		pre = "# exported 2020-01-31; 3 records\n" if spec["between"] == "preamble" else ""
+		f = io.StringIO(pre + text, newline="")
+		if pre:
+			f.readline()
+		else:
+			bad = call(serif.read_csv, f, delimiter=spec["bad_delimiter"], has_header=spec["has_header"])
+			if bad.ok:
+				chk.counters["reuse-bad-delimiter-accepted"] += 1
+				return
+		b = call(serif.read_csv, f, **kw)
+		if not b.ok:
+			chk.fail("read_csv reads every well-formed file", f"csv/raises/{spec['between']}/{type(b.exc).__name__}", f"read_csv on a handle after {spec['between']} ({text!r}) raised {b!r}")
+			return
+		judge_table(chk, spec, b.value, text)
+		return
 	if spec["via"] == "fileobj":
 		f = io.StringIO(text, newline="")
 		a = call(serif.read_csv, f, **kw)
@@ -254,5 +271,6 @@ def run(chk):
 		if not spec["grid"]:
 			continue
 		spec["via"] = rng.choice(["fileobj", "path", "path"])
-		spec["between"] = rng.choice(["nothing", "edit-result", "rewrite-file"]) if spec["via"] == "path" else "seek0"
+		spec["between"] = rng.choice(["nothing", "edit-result", "rewrite-file"]) if spec["via"] == "path" else rng.choice(["seek0", "preamble", "rejected-call-first"])
+		spec["bad_delimiter"] = rng.choice([";;", "", "ab"])
 		chk.case("reuse", spec, "csv-reuse")
